@@ -1449,7 +1449,7 @@ def run(ctx: core.Ctx):
             kind="concrete",
             match_info={"engine": small["engine"], "failure": what.split(":")[0]},
         )
-    if not concrete:
+    if not ctx.violations:  # no NEW concrete violation (none at all, or only ones a registered known finding describes)
         if broken:
             c, w, r = broken[0]
             ctx.violation(
